@@ -112,7 +112,9 @@ def arg_menu():
             ((1.0,), {"k": 2}), ((1.0,), {"k": 3}), ((np.array([1.0, 2.0, 3.0]),), {}),
             ((None,), {}), (({"y": 1.0},), {}),  # these two make the function raise (TypeError / KeyError)
             ((1.0, 2), {}), ((1.0, 3), {}), ((2.0, 2), {}),  # second positional argument (a prefix of it is another call)
-            ((np.array([2.0, 2.0]),), {}), ((np.array([]),), {})]  # arrays that compare "all equal" to a scalar
+            ((np.array([2.0, 2.0]),), {}), ((np.array([]),), {}),  # arrays that compare "all equal" to a scalar
+            (({"x": np.array([1.0, 2.0])},), {}), (({"x": np.array([1.0, 2.0])},), {}), (({"x": np.array([1.0, 3.0])},), {}),
+            (({"x": np.array([])},), {})]  # dicts of arrays (what fill.numpy hands to a quantity): equal, different, empty
 
 
 def same_value(a, b):
@@ -434,7 +436,7 @@ def run(tier, seed):
         acc.merge(a)
     ev = sum(acc.c.get(k, 0) for k in ("wrapper_words", "call_sequences", "expression_evaluations", "aggregator_streams"))
     acc.samples = [{"word": ["cached", ["named", "n1"], "serializable"], "base": "lambda"},
-                   {"wrapper": "cached(named)", "calls": "every sequence of <=%d calls over 19 argument tuples (two make the function raise, three pass a second positional argument)" % maxlen_calls},
+                   {"wrapper": "cached(named)", "calls": "every sequence of <=%d calls over 23 argument tuples (two make the function raise, three pass a second positional argument)" % maxlen_calls},
                    {"expr": exprs[len(exprs) // 2], "orders": "all 6 orders of dict / attribute / bare-scalar records"}]
     cov = {
         "evaluations": ev,
@@ -442,7 +444,7 @@ def run(tier, seed):
         "rule": "(i) every word of length <=4 over {serializable, cached, named(n1), named(n2)} applied to a lambda, a def "
                 "and a string: class, name, == and hash must depend only on the set of wrappers; a name applied to an "
                 "already named function must raise ValueError (def and string carry an implicit name once wrapped); (ii) "
-                "every sequence of <=%d calls over 19 argument tuples (two make the function raise, three pass a second positional argument) (identical / equal-but-distinct / different scalars, "
+                "every sequence of <=%d calls over 23 argument tuples (two make the function raise, three pass a second positional argument) (identical / equal-but-distinct / different scalars, "
                 "arrays, dicts, keyword arguments) through 6 wrappers vs the bare function; (iii) %d expressions of the "
                 "grammar evaluated through the library on dict, attribute and bare-scalar records in all 6 orders vs "
                 "Python's eval; every ordered pair of %d field names that collide with names the library injects (math constants and "
